@@ -38,6 +38,7 @@ func init() {
 			{Name: "use-before-ok", File: "imports/wasi_snapshot_preview1/fs.go", Old: "\tbuf, ok := mod.Memory().Read(resultFdstat, 24)\n\tif !ok {\n\t\treturn experimentalsys.EFAULT\n\t}\n", New: "\tbuf, ok := mod.Memory().Read(resultFdstat, 24)\n\tbuf[0] = 0\n\tif !ok {\n\t\treturn experimentalsys.EFAULT\n\t}\n", Rule: "R15.2", Substr: "fdFdstatGetFn"},
 			{Name: "poll-guard-removed", File: "imports/wasi_snapshot_preview1/poll.go", Old: "\tif nsubscriptions > math.MaxUint32/48 {\n\t\treturn sys.EFAULT\n\t}\n", New: "\t_ = math.MaxUint32\n", Rule: "R15.3", Substr: "pollOneoffFn"},
 			{Name: "writev-index-loop", File: "imports/wasi_snapshot_preview1/fs.go", Old: "\tfor iovsPos := uint32(0); iovsPos < iovsStop; iovsPos += 8 {\n\t\toffset := le.Uint32(iovsBuf[iovsPos:])\n\t\tl := le.Uint32(iovsBuf[iovsPos+4:])\n\n\t\tb, ok := mem.Read(offset, l)\n\t\tif !ok {\n\t\t\treturn 0, experimentalsys.EFAULT\n\t\t}\n\t\tn, errno := writer(b)", New: "\tfor i := uint32(0); i < iovsCount; i++ {\n\t\toffset := le.Uint32(iovsBuf[i*8:])\n\t\tl := le.Uint32(iovsBuf[i*8+4:])\n\n\t\tb, ok := mem.Read(offset, l)\n\t\tif !ok {\n\t\t\treturn 0, experimentalsys.EFAULT\n\t\t}\n\t\tn, errno := writer(b)", Rule: "R15.3", Substr: "writev"},
+			{Name: "dirent-cache-reserves-guest-count", File: "internal/sys/fs.go", Old: "\t\t// Try to read more, which could fail.\n\t\tif dirents, errno = d.f.Readdir(countToRead); errno != 0 {", New: "\t\td.dirents = append(make([]sys.Dirent, 0, len(d.dirents)+countToRead), d.dirents...)\n\t\t// Try to read more, which could fail.\n\t\tif dirents, errno = d.f.Readdir(countToRead); errno != 0 {", Rule: "R15.4", Substr: "DirentCache"},
 			{Name: "random-allocates-first", File: "imports/wasi_snapshot_preview1/random.go", Old: "\trandomBytes, ok := mod.Memory().Read(buf, bufLen)\n\tif !ok { // out-of-range\n\t\treturn sys.EFAULT\n\t}\n", New: "\ttmp := make([]byte, bufLen)\n\t_ = tmp\n\trandomBytes, ok := mod.Memory().Read(buf, bufLen)\n\tif !ok { // out-of-range\n\t\treturn sys.EFAULT\n\t}\n", Rule: "R15.4", Substr: "randomGetFn"},
 			{Name: "errno-unmapped", File: "internal/wasip1/errno.go", Old: "\tcase sys.EROFS:\n\t\treturn ErrnoRofs\n", New: "", Rule: "R15.5", Substr: "ToErrno"},
 			{Name: "insertat-can-fail-after-delete", File: "internal/descriptor/table.go", Old: "\tif key < 0 {\n\t\treturn false\n\t}\n\tindex := uint(key) / 64\n\tif diff", New: "\tif key < 0 || key > 1<<20 {\n\t\treturn false\n\t}\n\tindex := uint(key) / 64\n\tif diff", Rule: "R15.7", Substr: "Renumber"},
@@ -321,6 +322,88 @@ func runC15(c *core.Ctx) {
 	}
 	c.Count("memory_read_sites", reads)
 	c.Discharge("R15.4", "allocations in the WASI package", 0, fmt.Sprintf("%d functions scanned for make() sized by guest values", len(fns)))
+
+	// R15.4 (callees): functions of the file-system context that receive a guest-derived count from a WASI function
+	callees := map[*ssa.Function]bool{}
+	for _, fn := range fns {
+		for _, b := range fn.Blocks {
+			for _, in := range b.Instrs {
+				call, ok := in.(*ssa.Call)
+				if !ok {
+					continue
+				}
+				sc := call.Common().StaticCallee()
+				if sc == nil || sc.Blocks == nil || sc.Pkg == nil {
+					continue
+				}
+				pth := sc.Pkg.Pkg.Path()
+				if !strings.HasSuffix(pth, "/internal/sys") && !strings.HasSuffix(pth, "/internal/sysfs") && !strings.HasSuffix(pth, "/internal/descriptor") {
+					continue
+				}
+				for _, a := range call.Common().Args {
+					if _, isK := a.(*ssa.Const); !isK && guestDerived(a, 0, map[ssa.Value]bool{}) {
+						callees[sc] = true
+					}
+				}
+			}
+		}
+	}
+	var cl []*ssa.Function
+	for f := range callees {
+		cl = append(cl, f)
+	}
+	sort.Slice(cl, func(i, j int) bool { return cl[i].String() < cl[j].String() })
+	for _, fn := range cl {
+		var bad []string
+		for _, b := range fn.Blocks {
+			for _, in := range b.Instrs {
+				var sizes []ssa.Value
+				what := ""
+				switch x := in.(type) {
+				case *ssa.MakeSlice:
+					sizes, what = []ssa.Value{x.Len, x.Cap}, "make"
+				case *ssa.Call:
+					if sc := x.Common().StaticCallee(); sc != nil {
+						o := sc
+						if sc.Origin() != nil {
+							o = sc.Origin()
+						}
+						if o.Pkg != nil && o.Pkg.Pkg.Path() == "slices" && o.Name() == "Grow" && len(x.Common().Args) == 2 {
+							sizes, what = []ssa.Value{x.Common().Args[1]}, "slices.Grow"
+						}
+					}
+				}
+				for _, sz := range sizes {
+					if sz == nil {
+						continue
+					}
+					if _, isK := sz.(*ssa.Const); isK || !guestDerived(sz, 0, map[ssa.Value]bool{}) {
+						continue
+					}
+					// accepted under a dominating comparison of the size with a constant upper bound
+					bounded := guardedBy(b, func(cond ssa.Value) int {
+						bo, ok := cond.(*ssa.BinOp)
+						if !ok {
+							return 0
+						}
+						if _, isK := bo.Y.(*ssa.Const); isK && bo.X == sz {
+							switch bo.Op {
+							case token.LSS, token.LEQ:
+								return 1
+							case token.GTR, token.GEQ:
+								return -1
+							}
+						}
+						return 0
+					})
+					if !bounded {
+						bad = append(bad, fmt.Sprintf("%s at %s is sized by a count that comes from the guest (a buffer length that was never checked against the guest's memory)", what, c.Pos(in.Pos())))
+					}
+				}
+			}
+		}
+		c.Check(len(bad) == 0, "R15.4", "allocations in "+core.SSAFuncName(fn)+" (receives a guest-derived count)", fn.Pos(), "no allocation sized by the count", strings.Join(bad, "; ")+": the host allocates hundreds of megabytes for a guest with 64KiB of memory while the call still returns errno 0")
+	}
 
 	// ---- R15.4b / R15.7: descriptor-table keys chosen by the guest (internal/sys)
 	checkTableKeys(c)
